@@ -85,3 +85,12 @@ package xpull
 //@   before select#1 assert selwaits(s.sizeQ) && selwaits(s.recvQ)
 //@
 // ---- end generated current-queue contracts ----
+// ---- generated AddPipe contracts (tools/gen_addpipe_contracts.py) ----
+//@ func (*socket).AddPipe
+//@   ghost wasClosed = s.closed at call:Lock#1
+//@   ensures wasClosed ==> result == protocol.ErrClosed && !spawned("receiver") && !spawned("sender")
+//@   ensures !wasClosed && isnil(result) ==> spawned("receiver")
+//@   ensures !wasClosed ==> isnil(result)
+//@   before call:SetPrivate#1 assert p.p == pp && p.s == s
+//@
+// ---- end generated AddPipe contracts ----
